@@ -232,8 +232,24 @@ class FiltersSet:
         """
         ifcontrol = commands.get_command_instance("if")
         mtypeobj = commands.get_command_instance(matchtype, ifcontrol)
+        negatable = (
+            "true",
+            "false",
+            "size",
+            "exists",
+            "envelope",
+            "address",
+            "body",
+            "currentdate",
+        )
         for c in conditions:
-            if not isinstance(c[0], list) and c[0].startswith("not"):
+            # "notexists", "notsize"...: only a condition keyword can be
+            # negated this way, a header called "notes" is a header name
+            if (
+                not isinstance(c[0], list)
+                and c[0].startswith("not")
+                and c[0][3:] in negatable
+            ):
                 negate = True
                 cname = c[0].replace("not", "", 1)
             else:
